@@ -103,4 +103,55 @@ theorem C09_first_save :
       decide ((completeFrom st saveOps).freq = ⟨.new, .absent⟩ ∧ (completeFrom st saveOps).dic = ⟨.new, .absent⟩)) = true := by
   decide +kernel
 
+
+/-- a data file that start-up can take: complete (previous or new version) or never saved -/
+def usable (c : Content) : Bool := c = .old || c = .new || c = .absent
+
+def goodStartFresh (fs : Fs) : Bool := usable fs.freq.file && usable fs.dic.file
+
+theorem startStatesFresh_complete (fs : Fs) (h : goodStartFresh fs = true) : fs ∈ startStatesFresh := by
+  obtain ⟨⟨ff, ft⟩, ⟨df, dt⟩⟩ := fs
+  simp only [goodStartFresh, usable, Bool.and_eq_true, Bool.or_eq_true, decide_eq_true_eq] at h
+  rcases h with ⟨(h1 | h1) | h1, (h2 | h2) | h2⟩ <;> subst h1 <;> subst h2 <;> cases ft <;> cases dt <;> decide
+
+/-- the file system after a history of saves — completed or crashed at some instant — that begins in a directory where
+files may never have been saved -/
+inductive ReachableFresh : Fs → Prop
+  | start (fs : Fs) : goodStartFresh fs = true → ReachableFresh fs
+  | crashed (fs fs' : Fs) : ReachableFresh fs → fs' ∈ crashStatesFrom fs saveOps → ReachableFresh fs'
+  | completed (fs : Fs) : ReachableFresh fs → ReachableFresh (completeFrom fs saveOps)
+
+/-- **From a fresh directory too, whatever the history of completed and crashed saves**: no data file is ever torn or
+empty (start-up takes it, or the defaults when it was never saved, and keeps the save directory), and the next completed
+save ends with the new version of both files and no temporary file. -/
+theorem C09_history_fresh (fs : Fs) (h : ReachableFresh fs) :
+    goodStartFresh fs = true ∧
+    (completeFrom fs saveOps).freq = ⟨.new, .absent⟩ ∧ (completeFrom fs saveOps).dic = ⟨.new, .absent⟩ := by
+  have key : ∀ st, goodStartFresh st = true →
+      (∀ x ∈ crashStatesFrom st saveOps, goodStartFresh x = true) ∧
+      (completeFrom st saveOps).freq = ⟨.new, .absent⟩ ∧ (completeFrom st saveOps).dic = ⟨.new, .absent⟩ := by
+    intro st hst
+    have := List.all_eq_true.1 C09_first_save st (startStatesFresh_complete st hst)
+    simp only [Bool.and_eq_true, decide_eq_true_eq, List.all_eq_true] at this
+    refine ⟨?_, this.2⟩
+    intro x hx
+    have hk := this.1 x hx
+    simp only [keeps, Bool.or_eq_true, decide_eq_true_eq] at hk
+    simp only [goodStartFresh, usable, Bool.and_eq_true, Bool.or_eq_true, decide_eq_true_eq] at hst ⊢
+    constructor
+    · rcases hk.1 with h1 | h1
+      · rw [h1]; exact hst.1
+      · rw [h1]; exact Or.inl (Or.inr rfl)
+    · rcases hk.2 with h1 | h1
+      · rw [h1]; exact hst.2
+      · rw [h1]; exact Or.inl (Or.inr rfl)
+  have good : goodStartFresh fs = true := by
+    induction h with
+    | start fs h => exact h
+    | crashed fs fs' _ hmem ih => exact (key fs ih).1 fs' hmem
+    | completed fs _ ih =>
+      obtain ⟨_, h1, h2⟩ := key fs ih
+      simp [goodStartFresh, usable, h1, h2]
+  exact ⟨good, (key fs good).2⟩
+
 end Chokan.Props.C09
